@@ -1,1 +1,285 @@
 //! simkit: driving `turmoil::Sim` (see DESIGN.md section 4.1).
+//!
+//! Shared pieces for the Sim-based properties: a serialisable builder configuration with a seeded
+//! generator, a shared event log that host programs (futures on turmoil's per-host runtimes) and the
+//! controller (the code between `Sim::step` calls) both write to, and a thread-local capture of
+//! turmoil's own `tracing` events (target "turmoil") for fault-fired counters and C01's trace.
+
+use crate::core::prng::Rng;
+use crate::core::Log;
+use serde::{Deserialize, Serialize};
+use std::cell::RefCell;
+use std::rc::Rc;
+use std::time::{Duration, UNIX_EPOCH};
+use turmoil::{Builder, IpVersion, Sim};
+
+#[derive(Clone, Debug, Serialize, Deserialize, PartialEq)]
+pub struct SimCfg {
+    /// turmoil's own rng seed (Builder::rng_seed) — always explicit
+    pub rng_seed: u64,
+    /// epoch, seconds after UNIX_EPOCH — always explicit
+    pub epoch_s: u64,
+    pub tick_us: u64,
+    pub duration_ms: u64,
+    pub min_latency_us: u64,
+    pub max_latency_us: u64,
+    /// Sim::set_message_latency_curve (None = default)
+    pub latency_curve_milli: Option<u64>,
+    /// per mille
+    pub fail_rate_pm: u32,
+    pub repair_rate_pm: u32,
+    pub random_order: bool,
+    pub tcp_capacity: usize,
+    pub udp_capacity: usize,
+    /// ephemeral port range (None = turmoil's default)
+    pub ephemeral: Option<(u16, u16)>,
+    pub ipv6: bool,
+}
+
+impl Default for SimCfg {
+    fn default() -> Self {
+        SimCfg {
+            rng_seed: 1,
+            epoch_s: 1_700_000_000,
+            tick_us: 1000,
+            duration_ms: 10_000,
+            min_latency_us: 0,
+            max_latency_us: 100_000,
+            latency_curve_milli: None,
+            fail_rate_pm: 0,
+            repair_rate_pm: 1000,
+            random_order: false,
+            tcp_capacity: 64,
+            udp_capacity: 64,
+            ephemeral: None,
+            ipv6: false,
+        }
+    }
+}
+
+/// What a property allows the configuration generator to vary.
+#[derive(Clone, Debug)]
+pub struct CfgProfile {
+    /// allow min < max latency (messages overtake each other)
+    pub latency_range: bool,
+    /// allow fail_rate > 0 (random link partitions)
+    pub random_failures: bool,
+    pub small_capacities: bool,
+    pub max_tick_ms: u64,
+    pub max_latency_ticks: u64,
+}
+
+impl Default for CfgProfile {
+    fn default() -> Self {
+        CfgProfile { latency_range: true, random_failures: false, small_capacities: false, max_tick_ms: 20, max_latency_ticks: 12 }
+    }
+}
+
+impl SimCfg {
+    pub fn gen(rng: &mut Rng, p: &CfgProfile) -> SimCfg {
+        let tick_ms = *rng.pick(&[1u64, 1, 1, 2, 5, 7, 10, 20]);
+        let tick_ms = tick_ms.min(p.max_tick_ms.max(1));
+        let tick_us = tick_ms * 1000;
+        let min_ticks = rng.below(p.max_latency_ticks.max(1));
+        let min_latency_us = match rng.below(4) {
+            0 => 0,
+            1 => min_ticks * tick_us,
+            // not aligned to the tick
+            _ => min_ticks * tick_us + rng.below(tick_us),
+        };
+        let max_latency_us = if p.latency_range && rng.chance(2, 3) {
+            min_latency_us + rng.range(1, p.max_latency_ticks.max(1)) * tick_us + rng.below(tick_us)
+        } else {
+            min_latency_us
+        };
+        let (fail, repair) = if p.random_failures && rng.chance(1, 2) {
+            (*rng.pick(&[10u32, 50, 200, 500, 1000]), *rng.pick(&[100u32, 300, 700, 1000]))
+        } else {
+            (0, 1000)
+        };
+        let caps: &[usize] = if p.small_capacities { &[1, 2, 3, 8, 64] } else { &[64] };
+        SimCfg {
+            rng_seed: rng.next_u64(),
+            epoch_s: 1_000_000_000 + rng.below(1_000_000_000),
+            tick_us,
+            duration_ms: 3_600_000,
+            min_latency_us,
+            max_latency_us,
+            latency_curve_milli: if rng.chance(1, 4) { Some(*rng.pick(&[500u64, 1000, 5000, 20000])) } else { None },
+            fail_rate_pm: fail,
+            repair_rate_pm: repair,
+            random_order: rng.chance(1, 3),
+            tcp_capacity: *rng.pick(caps),
+            udp_capacity: *rng.pick(caps),
+            ephemeral: None,
+            ipv6: rng.chance(1, 4),
+        }
+    }
+
+    pub fn tick(&self) -> Duration {
+        Duration::from_micros(self.tick_us)
+    }
+    pub fn min_latency(&self) -> Duration {
+        Duration::from_micros(self.min_latency_us)
+    }
+    pub fn max_latency(&self) -> Duration {
+        Duration::from_micros(self.max_latency_us)
+    }
+    /// ceil(max_latency / tick)
+    pub fn max_latency_ticks(&self) -> u64 {
+        self.max_latency_us.div_ceil(self.tick_us.max(1))
+    }
+
+    pub fn build<'a>(&self) -> Sim<'a> {
+        let mut b = Builder::new();
+        b.rng_seed(self.rng_seed)
+            .epoch(UNIX_EPOCH + Duration::from_secs(self.epoch_s))
+            .tick_duration(self.tick())
+            .simulation_duration(Duration::from_millis(self.duration_ms))
+            .min_message_latency(self.min_latency())
+            .max_message_latency(self.max_latency())
+            .fail_rate(self.fail_rate_pm as f64 / 1000.0)
+            .repair_rate(self.repair_rate_pm as f64 / 1000.0)
+            .tcp_capacity(self.tcp_capacity)
+            .udp_capacity(self.udp_capacity)
+            .ip_version(if self.ipv6 { IpVersion::V6 } else { IpVersion::V4 });
+        if self.random_order {
+            b.enable_random_order();
+        }
+        if let Some((lo, hi)) = self.ephemeral {
+            b.ephemeral_ports(lo..=hi);
+        }
+        let sim = b.build();
+        if let Some(c) = self.latency_curve_milli {
+            sim.set_message_latency_curve(c as f64 / 1000.0);
+        }
+        sim
+    }
+}
+
+/// Event log shared between host programs and the controller. The run is single-threaded, so the
+/// log's sequence counter is a total order of all observations.
+#[derive(Clone)]
+pub struct SharedLog(pub Rc<RefCell<Log>>);
+
+impl SharedLog {
+    pub fn new(keep: bool) -> Self {
+        SharedLog(Rc::new(RefCell::new(Log::new(keep))))
+    }
+    pub fn ev(&self, s: impl AsRef<str>) -> u64 {
+        self.0.borrow_mut().ev(s)
+    }
+    pub fn tag(&self, s: &str) {
+        self.0.borrow_mut().tag(s)
+    }
+    pub fn seq(&self) -> u64 {
+        self.0.borrow().seq
+    }
+    /// Take the log out (call when the Sim and all programs are gone or no longer log).
+    pub fn take(&self) -> Log {
+        std::mem::take(&mut *self.0.borrow_mut())
+    }
+}
+
+pub fn us(d: Duration) -> u64 {
+    d.as_micros() as u64
+}
+
+// ------------------------------------------------------------------------------------------------
+// tracing capture (thread-local): turmoil emits Send / Delivered / Recv / Drop / Hold ... events
+// with target "turmoil"; hosts run inside a span "node" with field `name`.
+
+pub mod trace {
+    use std::cell::RefCell;
+    use std::fmt::Write;
+    use std::sync::atomic::{AtomicU64, Ordering};
+    use tracing::field::{Field, Visit};
+    use tracing::span::{Attributes, Id, Record};
+    use tracing::{Event, Metadata, Subscriber};
+
+    thread_local! {
+        static EVENTS: RefCell<Vec<String>> = const { RefCell::new(Vec::new()) };
+        static SPANS: RefCell<Vec<(u64, String)>> = const { RefCell::new(Vec::new()) };
+        static STACK: RefCell<Vec<u64>> = const { RefCell::new(Vec::new()) };
+    }
+
+    struct V<'a>(&'a mut String);
+    impl Visit for V<'_> {
+        fn record_debug(&mut self, field: &Field, value: &dyn std::fmt::Debug) {
+            let _ = write!(self.0, " {}={:?}", field.name(), value);
+        }
+    }
+
+    pub struct Capture {
+        next: AtomicU64,
+    }
+
+    impl Subscriber for Capture {
+        fn enabled(&self, m: &Metadata<'_>) -> bool {
+            m.target() == "turmoil"
+        }
+        fn new_span(&self, a: &Attributes<'_>) -> Id {
+            let id = self.next.fetch_add(1, Ordering::Relaxed);
+            let mut s = String::new();
+            a.record(&mut V(&mut s));
+            SPANS.with(|sp| {
+                let mut sp = sp.borrow_mut();
+                if sp.len() > 64 {
+                    sp.remove(0);
+                }
+                sp.push((id, s));
+            });
+            Id::from_u64(id)
+        }
+        fn record(&self, _: &Id, _: &Record<'_>) {}
+        fn record_follows_from(&self, _: &Id, _: &Id) {}
+        fn event(&self, e: &Event<'_>) {
+            let mut s = String::new();
+            let cur = STACK.with(|st| st.borrow().last().copied());
+            if let Some(c) = cur {
+                SPANS.with(|sp| {
+                    if let Some((_, n)) = sp.borrow().iter().rev().find(|(i, _)| *i == c) {
+                        let _ = write!(s, "[{}]", n.trim());
+                    }
+                });
+            }
+            e.record(&mut V(&mut s));
+            EVENTS.with(|ev| ev.borrow_mut().push(s));
+        }
+        fn enter(&self, id: &Id) {
+            STACK.with(|st| st.borrow_mut().push(id.into_u64()));
+        }
+        fn exit(&self, _: &Id) {
+            STACK.with(|st| {
+                st.borrow_mut().pop();
+            });
+        }
+    }
+
+    /// Run `f` with turmoil's tracing events captured on this thread; returns them in order.
+    pub fn capture<R>(f: impl FnOnce() -> R) -> (R, Vec<String>) {
+        EVENTS.with(|e| e.borrow_mut().clear());
+        SPANS.with(|e| e.borrow_mut().clear());
+        STACK.with(|e| e.borrow_mut().clear());
+        let sub = Capture { next: AtomicU64::new(1) };
+        let r = tracing::subscriber::with_default(sub, f);
+        let ev = EVENTS.with(|e| std::mem::take(&mut *e.borrow_mut()));
+        (r, ev)
+    }
+
+    /// Drain what has been captured so far (inside `capture`).
+    pub fn drain() -> Vec<String> {
+        EVENTS.with(|e| std::mem::take(&mut *e.borrow_mut()))
+    }
+}
+
+/// Position-coded payload: byte i of stream (conn, dir) is a function of (conn, dir, absolute offset),
+/// so loss, duplication, reordering and corruption are attributable.
+pub fn stream_byte(conn: u32, dir: u8, off: u64) -> u8 {
+    let x = (conn as u64).wrapping_mul(0x9E37_79B9).wrapping_add((dir as u64) << 20).wrapping_add(off.wrapping_mul(2654435761));
+    ((x >> 7) ^ (x >> 17) ^ off) as u8
+}
+
+pub fn stream_bytes(conn: u32, dir: u8, off: u64, len: usize) -> Vec<u8> {
+    (0..len as u64).map(|i| stream_byte(conn, dir, off + i)).collect()
+}
